@@ -206,6 +206,7 @@ type Exec struct {
 	trackGlobals bool
 	prop       string
 	syncMaps   map[string]*MapV
+	symAddrs   bool
 	stubs      map[string]Value
 	stubsPre   map[string]Value
 	ptrInts    map[string]*Term
@@ -338,6 +339,7 @@ func (e *Exec) resetPath(prefix []Decision) {
 	e.pathFuncs = map[string]int{}
 	e.lastPanic = nil
 	e.syncMaps = map[string]*MapV{}
+	e.symAddrs = false
 	e.stubs = map[string]Value{}
 	e.stubsPre = map[string]Value{}
 	e.ptrInts = map[string]*Term{}
@@ -400,6 +402,9 @@ func (e *Exec) decide(c *Term) bool {
 		return false
 	}
 	e.pos++
+	if traceDecide {
+		fmt.Fprintf(os.Stderr, "decide #%d in %s: %s\n", len(e.trace), e.curFnName(), truncStr(c.String(), 160))
+	}
 	nc := e.tb.Not(c)
 	rT := e.feasible(c)
 	if rT == Unsat {
@@ -610,3 +615,12 @@ func sortedNames(m map[string]int) []string {
 }
 
 var bigOne = big.NewInt(1)
+
+var traceDecide = os.Getenv("GOSYM_TRACE") != ""
+
+func truncStr(s string, n int) string {
+	if len(s) > n {
+		return s[:n] + "..."
+	}
+	return s
+}
